@@ -1,1 +1,2 @@
 import Spec.Scan
+import Spec.Assign
